@@ -54,6 +54,10 @@ def gen(tier, seed):
                     args, timeout=600, viol="coarse-graining changes the physical amounts when state / network / space use other units than the system")
         add("ucg_%s" % tag, "c16-uncoarsegrain", "uncoarsegrain_ok(%r, %s, %r)" % (shape, mp, envs), ["pre: " + pre],
             "un-coarse-graining spreads each group value evenly (totals preserved, members equal, dropped cells 0) (%s)" % desc, args, timeout=600)
+    L.extend(["def h_chem_dense(k: int, m: int, pat: int) -> bool:", '    """', "    pre: 0 <= k <= 2 and 0 <= m <= 2 and 0 <= pat <= 3", "    post: _", '    """', "    return chem_flags_dense(k, m, pat)", ""])
+    conds.append({"fn": "h_chem_dense", "what": "dense chemostat maps (several flagged members of one species in one group, three species): every coarse flag is exactly 1 if any member is flagged and exactly 0 otherwise, in every species' block; "
+                  "the exported right-hand side of a one-node coarse system holds flagged entries at rate 0", "sig": "c16-chemostat-flags", "structure": "coarse-graining",
+                  "viol": "a coarse chemostat entry is not the 0/1 flag 'any member is chemostated' (e.g. the number of chemostated members)"})
     L.extend(["def h_simulate_map(k: int, mode: int, tu: int) -> bool:", '    """', "    pre: 0 <= k <= 3 and 0 <= mode <= 1 and 0 <= tu <= 3", "    post: _", '    """',
               "    return simulate_with_map([(2, 1, 1), (2, 2, 1), (1, 2, 2), (3, 1, 1)][k], mode, tu)", ""])
     conds.append({"fn": "h_simulate_map", "what": "simulate(..., cgmap=...) on the real build: the identity map reproduces the plain Euler run sample by sample; a pairing map returns a trajectory of the original shape with the same per-species totals at every sample (4 grid shapes; sample times as bare numbers, in ms and in min under a script in seconds, and two requested times closer than the time step)",
